@@ -31,10 +31,10 @@ pub fn tree_params_strategy(k: usize, in_dim: usize, out_dim: usize, max_depth: 
 
 fn strategy(tier: Tier) -> BoxedStrategy<Case> {
     let maxd = tier.pick(3u32, 4u32);
-    (prop_oneof![10 => Just(2usize), 9 => Just(4usize), 1 => Just(8usize)], sized(3, 5), sized(3, 5), sized(3, 4), 1usize..=3)
+    (prop_oneof![10 => Just(2usize), 9 => Just(4usize), 1 => Just(8usize)], sized_wide(3, 5), sized(3, 5), sized(3, 4), 1usize..=3)
         .prop_flat_map(move |(k, n, m, p, q)| {
             // arity 8: up to 64 terminals per tree at depth 2 already
-            let maxd = if k == 8 { 2 } else { maxd };
+            let maxd = if k == 8 || n >= 8 { 2 } else { maxd };
             (
                 Just(k),
                 tree_params_strategy(k, n, m, maxd).prop_flat_map(tree_spec),
